@@ -263,7 +263,7 @@ fn probe_cache_is_consulted(h: HashId) -> bool {
     }
 }
 
-const SHAPES: &[&[(u32, u32)]] = &[&[(8, 5)], &[(8, 2)], &[(4, 5), (8, 2)], &[(8, 2), (8, 2)], &[(4, 5), (4, 5)], &[(8, 5), (8, 2), (4, 2)]];
+const SHAPES: &[&[(u32, u32)]] = &[&[(8, 5)], &[(8, 2)], &[(4, 5), (8, 2)], &[(8, 2), (8, 2)], &[(4, 5), (4, 5)], &[(8, 5), (8, 2), (4, 2)], &[(2, 10)], &[(4, 10), (8, 2)]];
 
 fn spec_strategy(n: usize, h0: u32) -> BoxedStrategy<AuxSpec> {
     let full = (4 + n + (n << h0) * 2) as u32;
